@@ -11,7 +11,9 @@ Stops(o) ==
   \A i \in 1 .. Len(o) : (o[i].op \in {"dial", "accept"} /\ o[i].res = "ok") =>
      \E j \in 1 .. (i - 1) : /\ o[j].op = "listen" /\ o[j].res = "ok"
                              /\ \A m \in (j + 1) .. (i - 1) : o[m].op # "close"
-Ops(o) == << <<"C18_ListenerStops", Stops(o)>> >>
+(* a connection that had not finished its upgrade when the listener closed is closed with it *)
+Releases(o) == \A i \in 1 .. Len(o) : o[i].op = "halfopen" => o[i].res = "closed"
+Ops(o) == << <<"C18_ListenerStops", Stops(o)>>, <<"C18_ListenerReleases", Releases(o)>> >>
 Report(n, o) == LET ops == Ops(o) IN \A i \in 1 .. Len(ops) : ops[i][2] \/ PrintT(<<"BAD", n, ops[i][1]>>)
 CaseEnds(i) == i = Len(Trace) \/ Trace[i + 1].k = "cfg"
 Init == l = 1 /\ caseN = 0 /\ obs = <<>>
